@@ -619,7 +619,8 @@ C14(T) ==
                   \* (an ignored fault may legitimately be declared again by a later evaluation in the same call - advancement and
                   \* step handler, packet and timer - so the "invoked once" clause is judged for cancelling / abandoning codes, after
                   \* which the same condition cannot be declared again; repeated ignore callbacks are left to conformance)
-                  \cup (IF code # "ignore" /\ ~exempt /\ \E m \in DOMAIN e.flt : m # k /\ e.flt[m].cond = f.cond /\ e.flt[m].k = f.k
+                  \* (notice of suspension is a stub in the library - callback, transaction continues - and is treated like ignore)
+                  \cup (IF code \in {"cancel", "abandon"} /\ ~exempt /\ \E m \in DOMAIN e.flt : m # k /\ e.flt[m].cond = f.cond /\ e.flt[m].k = f.k
                         THEN B("more-than-one-callback-for-one-fault", f) ELSE {})
                   \* the effect
                   \* ignore: the transaction continues - it is not cancelled with that condition (it may well complete regularly
